@@ -210,6 +210,8 @@ static void run_corrupt(const std::vector<FF> &files) {
         int vi = 0;
         for (auto v : variants(f)) {
             std::string id = f.name + "|" + std::to_string(vi);
+            // quick tier: the row-range read of corrupted files only for one file per reader (coordinate, array, binary CRS, binary dense)
+            if (vi == 1 && vf::quick() && !vf::replaying() && f.name != "mm_sym" && f.name != "mm_dense" && f.name != "bin_crs" && f.name != "bin_dense") { ++vi; continue; }
             for (size_t pos = 0; pos < f.bytes.size(); ++pos) {
                 if (!vf::take_group()) continue;
                 Batch b(*RUN);
@@ -231,7 +233,8 @@ static void run_corrupt(const std::vector<FF> &files) {
             }
             ++vi;
         }
-        vf::space(vf::KS() << "corruption: every (position, byte value) of " << f.name << " (" << f.bytes.size() << " bytes x 255 values) x {full read, rows [1,n-1)}");
+        bool both = vf::thorough() || f.name == "mm_sym" || f.name == "mm_dense" || f.name == "bin_crs" || f.name == "bin_dense";
+        vf::space(vf::KS() << "corruption: every (position, byte value) of " << f.name << " (" << f.bytes.size() << " bytes x 255 values) x " << (both ? "{full read, rows [1,n-1)}" : "{full read}"));
     }
 }
 
